@@ -174,6 +174,91 @@ def gen(backend, rng, quick):
     return ops
 
 
+AVX2_SHUFFLES = ["AAAA", "BBBB", "CACA", "DBBD", "ADDA", "CBCB", "ABAB", "BADC", "BACD", "ABDC"]
+AVX2_LANES = ["C", "D", "AB", "AC", "CD", "AD", "BC", "ABCD"]
+IFMA_LANES = ["D", "C", "AB", "AC", "AD", "BCD"]
+
+
+def perm_of(name):
+    return ["ABCD".index(c) + 1 for c in name]
+
+
+def mask_of(name):
+    return [1 if c in name else 0 for c in "ABCD"]
+
+
+def gen_vec(kind, rng, quick):
+    """4-lane vector field of the AVX2 / IFMA backend: every operation, independent lane contents, documented bound chains"""
+    ops = [{"op": "vec.available"}]
+    lanes = AVX2_LANES if kind == "avx2" else IFMA_LANES
+    weak = ((1 << 52) - 1,) * 2          # FieldElement51 inputs of new(): weakly reduced serial limbs
+
+    def fe(reg, style):
+        if style == "bytes":
+            ops.append({"op": "fe.from_bytes", "in": [le(rng.getrandbits(256))], "out": reg})
+        else:
+            limbs = []
+            for i in range(5):
+                limbs.append(rng.choice([0, 1, (1 << 51) - 1, 1 << 51, (1 << 51) + 1, (1 << 51) + rng.getrandbits(40), (1 << 52) - 1, rng.getrandbits(51), rng.getrandbits(52), (1 << 26) - 1, 1 << 26, ((1 << 25) - 1) << 26]))
+            ops.append({"op": "fe.from_limbs", "in": [limb_bytes(limbs)], "out": reg})
+
+    def new(reg):
+        for j in range(4):
+            fe("L%d" % j, rng.choice(["bytes", "limbs", "limbs"]))
+        ops.append({"op": "vec.new", "kind": kind, "in": ["L0", "L1", "L2", "L3"], "out": reg})
+
+    def op1(f, a, out, arg=None):
+        o = {"op": "vec.op1", "f": f, "in": [a], "out": out}
+        if arg:
+            o["arg"] = arg
+            o["perm"] = perm_of(arg)
+        ops.append(o)
+
+    def op2(f, a, b, out, arg=None):
+        o = {"op": "vec.op2", "f": f, "in": [a, b], "out": out}
+        if arg:
+            o["arg"] = arg
+            o["mask"] = mask_of(arg)
+        ops.append(o)
+
+    for it in range(25 if quick else 300):
+        new("A")
+        new("B")
+        if kind == "ifma":
+            op1("reduce", "A", "Ar"); op1("reduce", "B", "Br")
+            a, b = "Ar", "Br"
+        else:
+            a, b = "A", "B"
+        op2("mul", a, b, "M")
+        op1("square_and_negate_D" if kind == "avx2" else "square", a, "S")
+        op1("diff_sum", a, "DS")
+        op1("negate_lazy", a, "NL")
+        op2("add", a, b, "AD")
+        op1("reduce", "DS", "DSr")
+        op1("reduce", "AD", "ADr")
+        op1("neg", "ADr" if kind == "ifma" else "AD", "NG")
+        if kind == "avx2":
+            op2("mul", "DS", b, "M2")           # lhs with b < 1.6 excess
+            op2("mul", "AD", "NL", "M3")        # both lazily grown
+            op1("square_and_negate_D", "AD", "S2")
+        else:
+            op2("mul", "DSr", "ADr", "M2")
+            op1("reduce", "M", "Mr")
+            op1("square", "Mr", "S2")
+        ops.append({"op": "vec.mul_consts", "in": [a], "c": [121666, 121666, 2 * 121666, 2 * 121665], "out": "MC"})
+        ops.append({"op": "vec.mul_consts", "in": [b], "c": [rng.getrandbits(17) for _ in range(4)], "out": "MC"})
+        sh = rng.sample(AVX2_SHUFFLES, 3) if it else AVX2_SHUFFLES
+        for name in sh:
+            op1("shuffle", rng.choice([a, "M"]), "SH", name)
+        for name in (rng.sample(lanes, 2) if it else lanes):
+            op2("blend", a, b, "BL", name)
+        # chains: results feed further operations
+        op1("reduce", "M", "Mr")
+        op2("mul", "Mr" if kind == "ifma" else "M", b, "M4")
+        op1("diff_sum", "Mr" if kind == "ifma" else "M", "DS2")
+    return ops
+
+
 def run(ck):
     quick = ck.quick()
     # --- TLC: exhaustive toy models
@@ -191,6 +276,10 @@ def run(ck):
     for b in backends:
         cid = cfg_id(b)
         ops = gen(b, ck.rng, quick)
+        if b in ("v2", "v512"):
+            ops += [{"op": "reset"}] + gen_vec("avx2", ck.rng, quick)
+        if b == "v512":
+            ops += [{"op": "reset"}] + gen_vec("ifma", ck.rng, quick)
         sp = os.path.join(ck.workdir, cid + ".script.ndjson")
         tp = os.path.join(ck.workdir, cid + ".trace.ndjson")
         write_script(sp, ops)
